@@ -1,6 +1,7 @@
 package rules
 
 import (
+	"fmt"
 	"go/types"
 	"strings"
 
@@ -279,5 +280,103 @@ func containerOps(c *core.Ctx) {
 			}
 		}
 		c.Check(okNF, x[0]+" creates only when nothing was found", at(c, mu), "", "the insert into items is not on the not-found branch of the lookup")
+	}
+}
+
+func init() {
+	addRule("C07", &core.Rule{ID: "C07.counters-and-compaction", Floor: 8, Run: countersCompaction,
+		Doc: "Polarity of the small bookkeeping loops C07 depends on: the ssl-passthrough counter is decremented exactly when a passthrough host is released and moves by one only when SetSSLPassthrough changes the flag (up for true, down for false); RemoveAuthBackendByTarget keeps the binds whose target is not in the removed list, RemoveAuthBackendExcept keeps the used ones, both advance the write index with each kept element; the free-port scan advances past a port only when a bind already has it."})
+}
+
+func countersCompaction(c *core.Ctx) {
+	incdec := func(fn *ssa.Function, field string) map[string][]ssa.Instruction {
+		out := map[string][]ssa.Instruction{}
+		for _, b := range fn.Blocks {
+			for _, in := range b.Instrs {
+				st, ok := in.(*ssa.Store)
+				if !ok {
+					continue
+				}
+				if _, f := core.FieldOf(st.Addr); f != field {
+					continue
+				}
+				if bo, ok := st.Val.(*ssa.BinOp); ok && core.Key(bo.Y) == "1" {
+					out[bo.Op.String()] = append(out[bo.Op.String()], st)
+				}
+			}
+		}
+		return out
+	}
+	if fn := c.Fn("haproxy/types", "Hosts.releaseHost"); fn != nil {
+		ops := incdec(fn, "sslPassthroughCount")
+		ok := len(ops["-"]) == 1 && len(ops["+"]) == 0 && guardedBy(ops["-"][0], has(".sslPassthrough"), true)
+		c.Check(ok, "releasing a passthrough host decrements the counter", c.Pos(fn.Pos()), "", "the counter is not decremented exactly on the `host.sslPassthrough` branch: `backend _redirect_https` is emitted (or omitted) against what the maps reference")
+	}
+	if fn := c.Fn("haproxy/types", "Host.SetSSLPassthrough"); fn != nil {
+		ops := incdec(fn, "sslPassthroughCount")
+		okUp := len(ops["+"]) == 1 && guardedBy(ops["+"][0], func(k string) bool { return k == "value" }, true)
+		okDn := len(ops["-"]) == 1 && guardedBy(ops["-"][0], func(k string) bool { return k == "value" }, false)
+		changed := true
+		for _, l := range [][]ssa.Instruction{ops["+"], ops["-"]} {
+			for _, in := range l {
+				if !guardedBy(in, has("sslPassthrough != value"), true) && !guardedBy(in, has("sslPassthrough == value"), false) {
+					changed = false
+				}
+			}
+		}
+		c.Check(okUp && okDn && changed, "SetSSLPassthrough moves the counter with the flag", c.Pos(fn.Pos()), "", fmt.Sprintf("increment under value=true: %v, decrement under value=false: %v, only when the flag changes: %v", okUp, okDn, changed))
+	}
+	for _, x := range []struct {
+		name string
+		keep func(string) bool
+		br   bool
+		what string
+	}{
+		{"Frontend.RemoveAuthBackendByTarget", has("types.hasBackend("), false, "binds whose target is not being removed"},
+		{"Frontend.RemoveAuthBackendExcept", func(k string) bool { return strings.HasPrefix(k, "used[") }, true, "binds that are in use"},
+	} {
+		fn := c.Fn("haproxy/types", x.name)
+		if fn == nil {
+			continue
+		}
+		n := 0
+		for _, b := range fn.Blocks {
+			for _, in := range b.Instrs {
+				st, ok := in.(*ssa.Store)
+				if !ok {
+					continue
+				}
+				ia, ok := st.Addr.(*ssa.IndexAddr)
+				if !ok {
+					continue
+				}
+				n++
+				c.Check(guardedBy(st, x.keep, x.br), x.name+" keeps "+x.what, at(c, st), "", "the element is kept on the wrong branch of the test: the binds that should go stay and the live ones are dropped")
+				// index advances in the same block
+				adv := false
+				for _, y := range st.Block().Instrs {
+					if bo, ok := y.(*ssa.BinOp); ok && bo.Op.String() == "+" && core.Key(bo.Y) == "1" && bo.X == ia.Index {
+						adv = true
+					}
+				}
+				c.Check(adv, x.name+" advances the write index with each kept element", at(c, st), "", "the index used for the kept element is not incremented next to the store: kept elements overwrite each other")
+			}
+		}
+		c.Check(n == 1, x.name+" compaction store", c.Pos(fn.Pos()), "", fmt.Sprint(n))
+	}
+	if fn := c.Fn("haproxy/types", "Frontend.AcquireAuthBackendName"); fn != nil {
+		ok := false
+		for _, b := range fn.Blocks {
+			for _, in := range b.Instrs {
+				bo, isBin := in.(*ssa.BinOp)
+				if !isBin || bo.Op.String() != "+" || core.Key(bo.Y) != "1" {
+					continue
+				}
+				if ph, isPhi := bo.X.(*ssa.Phi); isPhi && ph.Comment == "freePort" {
+					ok = guardedBy(bo, has(".LocalPort)", " == "), true)
+				}
+			}
+		}
+		c.Check(ok, "the free-port scan skips exactly the ports in use", c.Pos(fn.Pos()), "", "freePort is not advanced on the `freePort == bind.LocalPort` branch: a port in use is handed out again")
 	}
 }
